@@ -18,6 +18,7 @@ pub struct World {
     pub log: Arc<(Mutex<Vec<Frame>>, Condvar)>,
     pub ctx_a: Scru128Id,
     pub ctx_b: Scru128Id,
+    pub commands_task: Mutex<Option<tokio::task::JoinHandle<()>>>,
 }
 
 #[derive(Clone, Copy, Default)]
@@ -74,13 +75,14 @@ impl World {
                 let _ = xs::generators::serve(s, e).await;
             });
         }
+        let mut commands_task = None;
         if serve.commands {
             let (s, e) = (store.clone(), engine.clone());
-            rt.spawn(async move {
+            commands_task = Some(rt.spawn(async move {
                 let _ = xs::commands::serve(s, e).await;
-            });
+            }));
         }
-        let w = World { dir, store, rt, log, ctx_a, ctx_b };
+        let w = World { dir, store, rt, log, ctx_a, ctx_b, commands_task: Mutex::new(commands_task) };
         // the serve loops act on live frames only after they have read the history up to their
         // threshold; a sentinel per loop proves they are past it
         w.settle_loops(serve);
@@ -113,6 +115,22 @@ impl World {
             let s = self.append_c("zzboot.spawn", ZERO_CONTEXT, Some("\"x\""), None);
             self.wait(|x| x.topic == "zzboot.start" && meta_str(x, "source_id") == Some(s.id.to_string()), 20.0).expect("harness: generators::serve did not come up");
         }
+    }
+
+    /// Restart of the command server: the running serve loop is aborted and a new one is started
+    /// on the same store (it replays the history up to its threshold like after a process restart).
+    pub fn restart_commands(&self) {
+        if let Some(h) = self.commands_task.lock().unwrap().take() {
+            h.abort();
+            let _ = self.rt.block_on(h);
+        }
+        let engine = xs::nu::Engine::new().expect("nu engine");
+        let s = self.store.clone();
+        let h = self.rt.spawn(async move {
+            let _ = xs::commands::serve(s, engine).await;
+        });
+        *self.commands_task.lock().unwrap() = Some(h);
+        self.settle_loops(Serve { commands: true, ..Default::default() });
     }
 
     pub fn append_c(&self, topic: &str, ctx: Scru128Id, content: Option<&str>, meta: Option<Value>) -> Frame {
